@@ -243,6 +243,44 @@ def families(n, names, seed):
   return r
 
 
+def sanitized(variant):
+  """ASan/UBSan build of the driver over all sequences of length <= 12 and the word-boundary
+  families. Sanitizer reports are recorded in the evidence (notes); only a wrong returned
+  length is a violation of this property."""
+  r = Result()
+  try:
+    exe = world.build_native(variant, kind='driver', sanitize=True)
+  except world.HarnessError as e:
+    r.notes.append('sanitized %s build not available: %s' % (variant, str(e)[:200]))
+    r.ev('sanitized/unavailable', False)
+    return r
+  seqs = [(s_, n) for n in range(0, 13) for s_ in range(1 << n)]
+  for n in (63, 64, 65, 127, 128, 129, 191, 192, 193, 256, 320):
+    for name in ('constant', 'onehot', 'periodic', 'random'):
+      seqs += [(s_, n) for s_ in _family(name, n, 0)]
+  lines = [_rec(s_, n) for s_, n in seqs]
+  env = dict(os.environ, ASAN_OPTIONS='detect_leaks=0:abort_on_error=0',
+             UBSAN_OPTIONS='print_stacktrace=1')
+  p = subprocess.run([exe], input='\n'.join(lines) + '\n', capture_output=True, text=True,
+                     env=env)
+  out = [int(x) for x in p.stdout.split()]
+  if p.returncode != 0 or len(out) != len(seqs):
+    i = min(len(out), len(seqs) - 1)
+    r.notes.append('sanitizer report (%s build) at input #%d = (s=%#x, n=%d): %s' %
+                   (variant, i, seqs[i][0], seqs[i][1], p.stderr[-400:]))
+  for (s_, n), got in zip(seqs, out):
+    ref = lfsr.lc_textbook(s_, n)
+    if got != ref:
+      r.violation('C++ %s build under ASan/UBSan: LfsrLength(s=%#x, n=%d) = %d, shortest LFSR '
+                  'has length %d' % (variant, s_, n, got, ref),
+                  {'fn': 'seq', 'args': {'s': s_, 'n': n}})
+      break
+  r.ev('sanitized/%s' % variant, True, len(out))
+  r.extra['sanitizer_runs_%s' % variant] = len(out)
+  r.sample({'sanitized_build': variant, 'sequences': len(seqs)})
+  return r
+
+
 CASES = {'seq': case_seq, 'count': case_count, 'family': case_family}
 
 
@@ -278,4 +316,10 @@ def plan(tier, seed):
                       'all seeds, flipped bit at every position of the first/last two '
                       'words' % (lens[0], lens[-1], len(lens)),
                       weight=n * n * 40))
+  if thorough:
+    for variant in ('clmul', 'portable'):
+      tasks.append(Task('sanitizer-pass', 'sanitized', {'variant': variant}, complete=False,
+                        bound='ASan+UBSan build of both C++ variants over all sequences <= 12 bits '
+                        'and word-boundary families (reports recorded, not verdicts)',
+                        weight=1e7))
   return tasks
